@@ -213,9 +213,14 @@ pub fn cmd_explore(opt: &HashMap<String, String>) -> i32 {
         let falpha = fault_alphabet(&u);
         let w16 = want(16);
         let w17 = want(17);
-        let extra: Option<std::sync::Arc<dyn Fn(&Ctx, &Config, &[Op], &mut Stats) -> ExtraOut + Send + Sync>> = if w16 || w17 {
+        let w13 = want(13);
+        let extra: Option<std::sync::Arc<dyn Fn(&Ctx, &Config, &[Op], &mut Stats) -> ExtraOut + Send + Sync>> = if w16 || w17 || w13 {
             Some(std::sync::Arc::new(move |ctx: &Ctx, cfg: &Config, hist: &[Op], st: &mut Stats| {
                 let mut out = ExtraOut { viol: vec![], novel: vec![] };
+                if w13 {
+                    let o = crate::cap13::alloc_failure_scan(ctx, cfg, hist, st);
+                    out.viol.extend(o.viol);
+                }
                 if w16 {
                     let o = fault_scan(ctx, cfg, hist, &falpha, st);
                     out.viol.extend(o.viol);
@@ -306,9 +311,14 @@ pub fn cmd_explore(opt: &HashMap<String, String>) -> i32 {
             let falpha = sd.alpha.clone();
             let w16 = want(16);
             let w17 = want(17);
-            let extra: Option<std::sync::Arc<dyn Fn(&Ctx, &Config, &[Op], &mut Stats) -> ExtraOut + Send + Sync>> = if w16 || w17 {
+            let w13 = want(13);
+            let extra: Option<std::sync::Arc<dyn Fn(&Ctx, &Config, &[Op], &mut Stats) -> ExtraOut + Send + Sync>> = if w16 || w17 || w13 {
                 Some(std::sync::Arc::new(move |ctx: &Ctx, cfg: &Config, hist: &[Op], st: &mut Stats| {
                     let mut out = ExtraOut { viol: vec![], novel: vec![] };
+                    if w13 {
+                        let o = crate::cap13::alloc_failure_scan(ctx, cfg, hist, st);
+                        out.viol.extend(o.viol);
+                    }
                     if w16 {
                         let o = fault_scan(ctx, cfg, hist, &falpha, st);
                         out.viol.extend(o.viol);
@@ -340,6 +350,45 @@ pub fn cmd_explore(opt: &HashMap<String, String>) -> i32 {
             let mut ex = Explorer::new(&ctx_s, vec![sd.root.clone()], sd.alpha.clone());
             let result = ex.run(&eo);
             phases.push(Phase { name: format!("seed {}", sd.root.label), result, roots: vec![sd.root.clone()], alpha_len, nkeys, fault_props: 0 });
+        }
+    }
+
+    // C13: parametric families (the quantifier is over a number)
+    if want(13) && !opt.contains_key("no-families") && !verdict_reached(&phases) {
+        let fams: Vec<(String, crate::cap13::FamOut)> = vec![
+            (format!("with_capacity(n) + n fresh insertions, n <= {}", if thorough { 2048 } else { 96 }), crate::cap13::with_capacity_family(if thorough { 2048 } else { 96 })),
+            (format!("churn at constant length L <= {}, 3 removal positions, 10 x capacity steps", if thorough { 64 } else { 40 }), crate::cap13::churn_family(if thorough { 64 } else { 40 })),
+        ];
+        for (name, f) in fams {
+            let mut stats = Stats::default();
+            stats.transitions = f.evaluations;
+            stats.executions = f.cases;
+            stats.replays_validated = 0;
+            *stats.rule_evals.entry("C13.family").or_insert(0) += f.evaluations;
+            let cfg = Config { hk: HK::Spread, cap: None, limit: usize::MAX };
+            let root = Root { cfg, prefix: vec![], label: name.clone() };
+            let violations = f
+                .viol
+                .into_iter()
+                .map(|(rule, detail)| VRec { props: p(13), rule, detail, root: 0, hist: vec![], op: None, mode: "family" })
+                .collect();
+            let result = ExploreResult {
+                states: f.cases as usize,
+                transitions: f.evaluations,
+                depth_completed: 0,
+                fixpoint: true,
+                cap_hit: None,
+                stats,
+                violations,
+                machinery: None,
+                samples: vec![],
+                level_sizes: vec![],
+                wall_s: 0.0,
+                novel: vec![],
+                fault_states: 0,
+                known: Default::default(),
+            };
+            phases.push(Phase { name: format!("family: {name}"), result, roots: vec![root], alpha_len: 0, nkeys, fault_props: 0 });
         }
     }
 
@@ -591,6 +640,21 @@ pub fn cmd_replay(opt: &HashMap<String, String>) -> i32 {
         println!("  {l}");
     }
     match (mode.as_str(), op) {
+        ("family", _) => {
+            for f in [crate::cap13::with_capacity_family(96), crate::cap13::churn_family(40)] {
+                for (rule, detail) in f.viol {
+                    viols.push((rule.to_string(), detail));
+                }
+            }
+        }
+        ("fault", Some(op @ Op::TryReserve { .. })) if prop == "C13" => {
+            let eo = crate::cap13::alloc_failure_scan(&ctx, &cfg, &hist, &mut st);
+            for x in eo.viol {
+                if x.op == Some(op) {
+                    viols.push((x.rule.to_string(), x.detail));
+                }
+            }
+        }
         ("strmap", _) => {
             for nk in [4usize, 6] {
                 let r = crate::strmap::explore(cfg.hk, nk, p(4));
